@@ -480,6 +480,26 @@ impl Env {
         self.run(&[ix], &[]);
     }
 
+    /// schedule a new transfer fee through the real Token-2022 instruction (takes effect two epochs later, as on chain)
+    pub fn set_transfer_fee(&mut self, mint_name: &str, fee_bps: u16, max_fee: u64) {
+        let m = self.mints[mint_name].clone();
+        let ix = spl_token_2022::extension::transfer_fee::instruction::set_transfer_fee(&spl_token_2022::ID, &m.key, &m.authority, &[], fee_bps, max_fee).unwrap();
+        self.run(&[ix], &[m.authority]);
+    }
+
+    /// the transfer fee in force at the current epoch, read from the mint account: (basis points, maximum)
+    pub fn fee_in_force(&self, mint: &Pubkey) -> Option<(u16, u64)> {
+        use spl_token_2022::extension::{BaseStateWithExtensions, StateWithExtensions};
+        let a = self.world.get(mint)?;
+        if a.owner != spl_token_2022::ID {
+            return None;
+        }
+        let st = StateWithExtensions::<spl_token_2022::state::Mint>::unpack(&a.data).ok()?;
+        let c = st.get_extension::<spl_token_2022::extension::transfer_fee::TransferFeeConfig>().ok()?;
+        let f = c.get_epoch_fee(self.world.clock.epoch);
+        Some((u16::from(f.transfer_fee_basis_points), u64::from(f.maximum_fee)))
+    }
+
     fn mint_has_fee_ext(&self, mint: &Pubkey) -> bool {
         use spl_token_2022::extension::{BaseStateWithExtensions, StateWithExtensions};
         let a = match self.world.get(mint) {
